@@ -3,6 +3,7 @@ REGISTRY = {
     "C04": "machines.knots",
     "C06": "machines.knots",
     "C12": "machines.cache",
+    "C14": "machines.exchange",
     "C16": "machines.linalg",
     "C17": "machines.config",
 }
